@@ -46,6 +46,17 @@ def accessor(ctx, qn, col):
     memos = memo_tables(ctx, fn, ps)
     for m_, vd in memos.items():
         if vd[0] == 'unsound':
+            from ..lib import validated_against_question
+            try:
+                checked_ = validated_against_question(ctx.M, fn, {m_}, depth=2)
+            except Exception:
+                checked_ = False
+            if checked_:
+                # not answered by key alone: what is found under the key (a row cursor) is compared with the timestamp asked about before it is used
+                ctx.undecided('C06.S6', '%s answers from its memo %s only what it would compute afresh' % (qn, m_), fn.site(),
+                              'self.%s is filed under %s, which leaves out %s, but what is found there is compared with the question before use: whether that check is sufficient is not decided here'
+                              % (m_, fmt(vd[1])[:60], ', '.join(str(x_) for x_ in vd[2])))
+                continue
             ctx.violation('C06.S6', '%s answers from its memo %s only what it would compute afresh' % (qn, m_), fn.site(),
                           'the memo is keyed by %s but the stored value also depends on %s: a later query with another %s is answered with the wrong row'
                           % (fmt(vd[1]), vd[2], '/'.join(vd[2])), key='C06.S6|%s|memo-key' % qn)
